@@ -1,5 +1,5 @@
 """C24 — the PTG compiler accepts only programs it can compile (grammar-based generator, one ptgpp process per input)."""
-import os, sys, re, hashlib, shutil
+import os, sys, re, hashlib
 
 sys.path.insert(0, os.path.join(os.path.dirname(os.path.dirname(os.path.dirname(os.path.abspath(__file__)))), 'harness'))
 import c24_jdfgen
@@ -28,6 +28,50 @@ def cc_class(msg):
     return '-'.join(t[:6]) or 'unknown'
 
 
+def input_feature(text):
+    """A feature of the *input* that names the defect class better than the first C error does (keeps keys stable):
+    a dependency or partitioning that refers to memory through a name that is not a declared global."""
+    body = text.split('%}', 1)[-1]
+    for a, b in sorted(c24_jdfgen.Gen.opaque_spans(body), reverse=True):
+        if not re.match(r'[A-Za-z_]\w*[ \t]+\[', body[a:b]):          # keep the global declarations, drop C regions and comments
+            body = body[:a] + ' ' + body[b:]
+    globals_ = set(re.findall(r'(?m)^([A-Za-z_]\w*)[ \t]+\[', body))
+    refs = set(re.findall(r'(?:<-|->|\?|:)\s*(?:\[[^\]]*\]\s*)?([A-Za-z_]\w*)\s*\(', body))
+    if refs - globals_ - {'NEW', 'NULL'}:
+        return 'reference-to-undeclared-collection'
+    return None
+
+
+def asan_key(block):
+    """same shape as vfcore.san_key, but frames are recognised by the compiler's directory (works for scratch copies of the repo too)"""
+    m = re.search(r'ERROR: AddressSanitizer: (\S+)', block)
+    fr = [f for f, loc in re.findall(r'#\d+\s+0x[0-9a-f]+\s+in\s+(\S+)\s+(\S+)', block) if '/ptg-compiler/' in loc and not f.startswith('__')]
+    return 'asan:%s:%s' % (m.group(1) if m else 'unknown', '<'.join(fr[:2]) or '?')
+
+
+def build_ptgpp_asan(ctx):
+    """The build tree's parsec-ptgpp is a host tool and is NOT compiled with the sanitizer options of the asan flavour (those
+    are applied to libparsec only), so oracle (e) needs its own instrumented compiler: the same five translation units
+    (main.c comes in through parsec.l), the same defines and include path, plus -fsanitize=address,undefined."""
+    import subprocess, vfcore
+    b = ctx.build('asan')
+    src = os.path.join(vfbuild.REPO, 'parsec/interfaces/ptg/ptg-compiler'); gen = os.path.join(b, 'parsec/interfaces/ptg/ptg-compiler')
+    files = [os.path.join(src, f) for f in ('jdf.c', 'jdf2c.c', 'jdf_unparse.c')] + [os.path.join(gen, f) for f in ('parsec.y.c', 'parsec.l.c')]
+    deps = files + [os.path.join(src, f) for f in os.listdir(src) if f.endswith(('.h', '.c'))] + [os.path.join(b, 'parsec/libparsec-base.a'), os.path.join(gen, 'parsec.y.h')]
+    out = os.path.join(b, 'harness', 'c24_ptgpp_asan'); os.makedirs(os.path.dirname(out), exist_ok=True)
+    newest = max(os.path.getmtime(f) for f in deps if os.path.exists(f))
+    if os.path.exists(out) and os.path.getmtime(out) >= newest:
+        return out
+    cmd = ['gcc', '-std=gnu11', '-O1', '-g', '-w', '-fno-omit-frame-pointer', '-fsanitize=address', '-fsanitize=undefined', '-mcx16', '-DBUILDING_PARSEC', '-D_GNU_SOURCE', '-D' + vfbuild.GUARD,
+           '-I' + src, '-I' + os.path.join(b, 'parsec/include'), '-I' + b, '-I' + os.path.join(vfbuild.REPO, 'parsec/include'), '-I' + vfbuild.REPO, '-I' + gen] + files + \
+          [os.path.join(b, 'parsec/libparsec-base.a'), '-lm', '-o', out + '.tmp%d' % os.getpid()]
+    p = subprocess.run(cmd, stdout=subprocess.PIPE, stderr=subprocess.STDOUT, text=True)
+    if p.returncode != 0:
+        raise vfcore.HarnessError('cannot build the instrumented parsec-ptgpp: %s\n%s' % (' '.join(cmd), p.stdout[-3000:]))
+    os.replace(out + '.tmp%d' % os.getpid(), out)
+    return out
+
+
 def run(ctx):
     thorough = ctx.tier == 'thorough'
     ctx.rule = RULE
@@ -35,9 +79,8 @@ def run(ctx):
                        'the C compiler (mpicc -c -O0 against the build headers) decides "compiles"; errors located in .jdf lines (user C code) are not attributed to ptgpp',
                        'text mutations never touch prologue/epilogue, inline C, bodies or comments',
                        'strict mode = --Werror --Wmasked --Wmutexin --Wremoteref; default mode = no warning option',
-                       'ASan fatal, UBSan logged through the reviewed suppression list']
-    ctx.build('asan')
-    ptgpp = vfbuild.ptgpp('asan')
+                       'parsec-ptgpp is rebuilt by this check with -fsanitize=address,undefined (the asan flavour does not instrument the host tool); ASan fatal, UBSan logged through the reviewed suppression list']
+    ptgpp = build_ptgpp_asan(ctx)
     inc = [f for f in vfbuild.inc_flags('asan') if not f.startswith('-D')]
     # the limits the generator assumes must be those of the build
     opt = open(os.path.join(vfbuild.bdir('asan'), 'parsec/include/parsec/parsec_options.h')).read()
@@ -46,7 +89,7 @@ def run(ctx):
         if not m or int(m.group(1)) != v:
             import vfcore
             raise vfcore.HarnessError('generator limit %s=%d differs from the build (%s)' % (k, v, m.group(1) if m else 'undefined'))
-    n = int(os.environ.get('VF_C24_N', 2500 if thorough else 110))      # VF_C24_N: scratch trials only
+    n = int(os.environ.get('VF_C24_N', 1500 if thorough else 100))      # VF_C24_N: scratch trials only
     cases = []
     for i in range(n):
         seed = ctx.seed * 100003 + i
@@ -70,7 +113,7 @@ def run(ctx):
             if r.timed_out:
                 r = ctx.run(cmd, timeout=600, tag=c['id'] + '-' + mode + '-a2', cwd=os.path.join(d, 'a'))
             res = dict(mode=mode, r=r, dir=d, cc=None, r2=None, same=None)
-            if not r.timed_out and r.rc == 0 and not r.san:
+            if not r.timed_out and r.rc == 0 and not any('AddressSanitizer' in x for x in r.san):
                 r2 = ctx.run(cmd, timeout=600, tag=c['id'] + '-' + mode + '-b', cwd=os.path.join(d, 'b'))
                 res['r2'] = r2
                 same = True
@@ -99,10 +142,16 @@ def run(ctx):
             if r.timed_out:
                 ctx.violation('hang', '%s: the compiler did not finish twice (600 s)' % what, r, files); ctx.note_case(ident, nontrivial); continue
             # (e) sanitizer reports and crashes of the compiler itself
-            if r.san or r.signal is not None:
-                import vfcore
-                if r.san:
-                    key = vfcore.san_key(r.san[0]); head = r.san[0].strip().splitlines()[0][:200]
+            import vfcore
+            asan_blocks = [x for x in r.san if 'AddressSanitizer' in x]
+            for u in ([] if asan_blocks else [x for x in r.san if x not in asan_blocks]):     # before a fatal ASan report the UBSan lines describe the same event
+                # UBSan is in recover mode: the report is a violation of (e) on its own, the run is judged further below
+                ctx.violation(pre + vfcore.san_key(u), '%s: undefined behaviour inside the compiler: %s' % (what, u.strip().splitlines()[0][:220]), r, files)
+                ctx.add_cov('ubsan_reports')
+            if asan_blocks or r.signal is not None:
+                if asan_blocks:
+                    key = asan_key(asan_blocks[0]); head = [l for l in asan_blocks[0].strip().splitlines() if 'ERROR' in l][:1]
+                    head = (head[0] if head else asan_blocks[0].strip().splitlines()[0])[:200]
                 else:
                     key = vfcore.assert_key(diag) or 'signal:%s' % r.signal; head = vfcore._grep(diag, 'Assertion') or 'signal %s' % r.signal
                 if 'ABRT' in key and vfcore.assert_key(diag): key = vfcore.assert_key(diag)
@@ -133,7 +182,7 @@ def run(ctx):
                     ctx.add_cov('discarded_error_in_user_code'); ctx.inconclusive_case('compile error inside user C code: ' + what[:120]); continue
                 gen_errs = [l for l in errs if l not in in_user_code] or errs or [(cc.stderr or '')[-200:]]
                 if not c['over_limit'] or not gen_errs[0].count('#error'):
-                    ctx.violation(pre + 'accepted:output-does-not-compile' + ('' if fatal_diag else ':' + cc_class(gen_errs[0])),
+                    ctx.violation(pre + 'accepted:output-does-not-compile' + ('' if fatal_diag else ':' + (input_feature(c['text']) or cc_class(gen_errs[0]))),
                                   '%s: exit status 0 but the C compiler rejects the output: %s%s' % (what, gen_errs[0][:240], (' | compiler diagnostics before: ' + ' / '.join(l for l in diag.splitlines() if 'Fatal' in l or 'too many' in l)[:200]) if fatal_diag else ''),
                                   r, dict(files, **{'cc_errors.txt': '\n'.join((cc.stderr or '').splitlines()[:60])}))
                 ctx.add_cov('accepted_but_not_compilable')
@@ -159,4 +208,4 @@ def run(ctx):
 
 
 def prebuild(ctx):
-    ctx.build('asan')
+    build_ptgpp_asan(ctx)
